@@ -23,6 +23,8 @@ open KaVerif Num Eval
 def refusesSize (code : Option BodyCode) (args : List Val) : Option String :=
   match code, args with
   | some .range, [.num (.int lo), .num (.int hi)] => if (hi + 1 - lo).toNat > maxRange then some "huge range" else Option.none
+  -- `bPow` declines powers with millions of digits (`10^12!` is `10^(12!)`); the translated `strict_pow` would compute them
+  | some .pow, [.num x, .num y] => if hugePow x y then some "huge power" else Option.none
   | some .kaRange, [.num lo, .num hi, .num step] =>
     -- `bKaRange` declines a nominal length beyond `maxRange` after its two guards passed (the translated `while` loop would
     -- only stop at `pyLoopFuel`, after 20000 quadratic `append`s)
